@@ -407,6 +407,17 @@ def _check_extend(_):
         if g != e:
             out.append(Failure("builtin-redefined", {"config": "user .cbi/config redefines gcc mode 'openmp', icx pass 'sycl-spir64', nvcc pass 'sm_70'", "compiler": name, "argv": argv},
                                expected={k: list(v) for k, v in e.items()}, observed=g if isinstance(g, str) else {k: list(v) for k, v in g.items()}))
+    # re-aliasing a name that is already an alias in the built-in files
+    realias = "\n".join(['[compiler."g++"]', 'alias_of = "clang"', "", "[compiler.icpx]", 'alias_of = "mycc"', "", "[compiler.mycc]", 'alias_of = "nvcc"', ""])
+    load(realias, d)
+    for name, argv, exp in [("g++", ["-fsycl-is-device", "-fopenmp"], {"default": ["_OPENMP", "__SYCL_DEVICE_ONLY__"]}),
+                            ("icpx", ["--gpu-architecture=sm_80"], {"default": ["__CUDACC__", "__NVCC__"], "sm_80": ["__CUDACC__", "__CUDA_ARCH__=800", "__NVCC__"]}),
+                            ("icx", ["-fsycl"], {"default": ["SYCL_LANGUAGE_VERSION"], "sycl-spir64": sorted(SYCL_T["spir64"] + ["SYCL_LANGUAGE_VERSION"])})]:
+        n += 1
+        got = parse(name, argv)
+        g = got[1] if got[0] == "EXC" else {k: v[0] for k, v in got[0].items()}
+        if g != {k: sorted(v) for k, v in exp.items()}:
+            out.append(Failure("builtin-alias-redefined", {"config": "user .cbi/config: g++ -> clang, icpx -> mycc -> nvcc", "compiler": name, "argv": argv}, expected=exp, observed=g))
     return n, out
 
 
@@ -437,6 +448,58 @@ def _fresh_answers(d):
         load(user_cfg("kc", *HIST_CFG_RULES), d)
         ans[c] = parse(c[0], list(c[1]))[0]
     return ans
+
+
+def _same_object_history(_):
+    """Several parse_args calls on ONE ArgumentParser object, and several entries for one compiler in ONE database:
+    every call / entry must give what a fresh parser gives."""
+    from codebasin import config
+
+    d = env.fresh_dir("c12o")
+    out = []
+    n = 0
+    calls = [("nvcc", ["-gencode", "arch=compute_80,code=sm_80"]), ("nvcc", ["--gpu-architecture=sm_90"]), ("nvcc", []), ("icx", ["-fsycl-targets=spir64_gen"]), ("icx", ["-fsycl"]),
+             ("kc", ["-farch=x2"]), ("kc", ["-farch=x3"]), ("kc", [])]
+    for override in (False, True):
+        cfg = user_cfg("kc", ("arch", "targets", "m1"), override, ["-DIMPL"])
+        fresh = {}
+        for name, argv in calls:
+            load(cfg, d)
+            fresh[(name, tuple(argv))] = parse(name, argv)[0]
+        for name in ("nvcc", "icx", "kc"):
+            mine = [c for c in calls if c[0] == name]
+            for seq in itertools.permutations(mine, 2):
+                load(cfg, d)
+                ap = config.ArgumentParser(name)
+                for k, (_, argv) in enumerate(seq):
+                    n += 1
+                    try:
+                        got = {c.pass_name: (sorted(c.defines), sorted(c.include_paths), sorted(c.include_files)) for c in ap.parse_args(list(argv))}
+                    except Exception as e:  # noqa
+                        got = f"{type(e).__name__}: {e}"
+                    if got != fresh[(name, tuple(argv))]:
+                        out.append(Failure("history-one-parser", {"compiler": name, "override": override, "calls on one ArgumentParser": [list(a) for _, a in seq[:k + 1]]},
+                                           expected=fresh[(name, tuple(argv))], observed=got))
+                        break
+    # one database, several entries for the same compiler
+    load(None, d)
+    with open(os.path.join(d, "k.cu"), "w") as f:
+        f.write("int k;\n")
+    dbp = os.path.join(d, "db.json")
+    ents = [["nvcc", "-gencode", "arch=compute_80,code=sm_80", "-c", "k.cu"], ["nvcc", "-gencode", "arch=compute_90,code=sm_90", "-c", "k.cu"], ["nvcc", "-c", "k.cu"],
+            ["nvcc", "-gencode", "arch=compute_80,code=sm_80", "-c", "k.cu"]]
+    with open(dbp, "w") as f:
+        json.dump([{"file": "k.cu", "directory": d, "arguments": a} for a in ents], f)
+    n += 1
+    try:
+        db = config.load_database(dbp, d)
+        got = [sorted(e["pass_name"] for e in db[i:j]) for i, j in ((0, 2), (2, 4), (4, 6), (6, 8))] if len(db) == 8 else [e["pass_name"] for e in db]
+    except Exception as e:  # noqa
+        got = f"{type(e).__name__}: {e}"
+    exp = [["default", "sm_80"], ["default", "sm_90"], ["default", "sm_70"], ["default", "sm_80"]]
+    if got != exp:
+        out.append(Failure("history-one-database", {"entries": ents}, expected=exp, observed=got))
+    return n, out[:6]
 
 
 def _hist_expand(arg):
@@ -548,6 +611,8 @@ def run(tier):
         else:
             rc = par.pmap(_check_rules, [(combos[i:i + 2], 3) for i in range(0, len(combos), 2)])
         rx = _check_extend(None)
+        ro = _same_object_history(None)
+        rx = (rx[0] + ro[0], rx[1] + ro[1])
         re2e = _check_e2e(None)
         sinfo, sfail = explore_history(3 if tier == "quick" else 4)
     finally:
